@@ -206,6 +206,11 @@ enum Mech {
 /// Runs in a forked child: sets up both iterators, triggers the mechanism, writes what came out.
 fn real_child(m: Mech, sig: c_int, fd: i32) -> i32 {
     use fork::wr;
+    // history before the iterators exist: a plain iterator on another signal, and a plain flag as the first action ever on
+    // this signal (actions that do not look at the siginfo came first; the records must be complete all the same)
+    let hist_other = if sig == libc::SIGUSR2 { libc::SIGUSR1 } else { libc::SIGUSR2 };
+    let _hist_it = signal_hook::iterator::Signals::new([hist_other]);
+    let _hist_flag = signal_hook::flag::register(sig, std::sync::Arc::new(std::sync::atomic::AtomicBool::new(false)));
     let mut o_it = match SignalsInfo::<WithOrigin>::new([sig]) {
         Ok(s) => s,
         Err(e) => {
@@ -451,6 +456,33 @@ pub fn main(args: &[String]) -> i32 {
                 samples.push(J::s(&format!("{} -> {}", label, g)));
             }
         }
+    }
+    // the very first extractions of a process, made by four threads at the same moment (40 fresh processes)
+    for round in 0..40 {
+        let res = fork::probe(20_000, false, |fd| {
+            let barrier = std::sync::Arc::new(std::sync::Barrier::new(4));
+            let mut js = Vec::new();
+            for t in 0..4i32 {
+                let b = barrier.clone();
+                js.push(std::thread::spawn(move || {
+                    let kinds = [(libc::SIGUSR1, 0), (libc::SIGUSR1, -1), (libc::SIGHUP, -6), (libc::SIGCHLD, 1)];
+                    let (sg, code) = kinds[t as usize];
+                    let rec = synth(sg, code, 4000 + t, 5000 + t as u32);
+                    let want = table(sg, code);
+                    b.wait();
+                    let o = unsafe { Origin::extract(&rec) };
+                    o.cause == want.0 && o.process.map(|p| (p.pid, p.uid)) == Some((4000 + t, 5000 + t as u32))
+                }));
+            }
+            let ok = js.into_iter().all(|j| j.join().unwrap_or(false));
+            fork::wr(fd, if ok { "FIRST ok\n" } else { "FIRST wrong\n" });
+            0
+        });
+        if res.out.contains("FIRST wrong") {
+            bad.push(("overlapping-extractions-mixed-up".into(), format!("round {}: the first extractions of a fresh process, made by four threads at once, did not all report the cause and sender of their own record", round)));
+            break;
+        }
+        keys.insert("first-extractions-race".to_string());
     }
     // overlapping extractions
     let mut overlap = (0u64, 0u64);
